@@ -22,20 +22,20 @@ _T = {
     "C01": ("no panic / abort / stack overflow / hang: model functions are total; oracle = the crate returned normally on a 2 MiB-stack thread and every returned value re-exports, converts and serialises without panic", "outcome"),
     "C02": ("Theorem Props.C02 / C02_generated: for every configuration whose generated tables satisfy the framing facts (re-decided on each run for the tables regenerated from the source), every cache state and every buffer, whenever the modelled parse_bytes returns, its result satisfies Preds.decomposes (header-implied wire lengths sum to a prefix, at most one final error whose remaining bytes are the unconsumed suffix, silent stop only before a disallowed version). Induction over the packet loop from per-parser consumption lemmas.", "outcome, packets"),
     "C03": ("V5/V7 decode at the Cisco offsets (hand-written Cisco layouts in Spec/Cisco.lean compared with the layouts generated from the derive(Nom) structs), protocol names against the IANA table in Spec/Iana.lean, short input is an error", "outcome, packets"),
-    "C04": ("V9 streams decode exactly as the governing template says: expected view computed by the specification (Spec/Expected.lean: latest-definition-wins template memory, per-type big-endian interpretation) from the abstract stream that the RFC 3954 writer Spec.enc encoded", "outcome, packets, caches"),
+    "C04": ("V9 streams decode exactly as the governing template says (also with the RFC 3954 record count in the header when the packet ends its buffer: Props/C04c.lean; template-record parsers regenerated from the derive(Nom) declarations: Props/NomGen.lean): expected view computed by the specification (Spec/Expected.lean: latest-definition-wins template memory, per-type big-endian interpretation) from the abstract stream that the RFC 3954 writer Spec.enc encoded", "outcome, packets, caches"),
     "C05": ("IPFIX streams decode exactly as RFC 7011 and the template say (enterprise fields, variable-length prefixes, zero-length fields, options templates); expected view from Spec/Expected.lean", "outcome, packets, caches"),
-    "C06": ("template cache: latest definition wins (either kind), persists across calls, independent of the split into calls, untouched by V5/V7 / disallowed versions, isolated per parser instance and protocol", "outcome, packets, caches"),
+    "C06": ("template cache: the caches after any call ARE the replay of the template records reported by it (Props/C06c.lean: for arbitrary bytes; V9 needs the clause that the result does not end in a V9 partial-parse error, with a witness why), latest definition wins (either kind), persists across calls, independent of the split into calls, untouched by V5/V7 / disallowed versions, isolated per parser instance and protocol", "outcome, packets, caches"),
     "C07": ("data for an unknown template id never yields records (V9: error; IPFIX: set absent), caches unchanged, earlier packets reported, later decodes normally", "outcome, packets, caches"),
-    "C08": ("V5/V7 re-export reproduces the bytes each packet occupied; emission order generated from to_be_bytes and compared with the layout", "outcome, packets, exports"),
+    "C08": ("V5/V7 re-export reproduces the bytes each packet occupied (full strength); structure -> bytes -> structure holds exactly for structures whose DERIVED fields (version, protocol_type) carry what the parser derives (Props/C08b.lean: necessary and sufficient; the two deviations are recorded known findings); emission order generated from to_be_bytes and compared with the layout", "outcome, packets, exports"),
     "C09": ("V9 re-export reproduces the bytes each accepted packet occupied (lossy value kinds are recorded known findings)", "outcome, packets, exports"),
     "C10": ("IPFIX re-export reproduces header.length bytes (lossy value kinds, enterprise bit, variable-length prefixes, dropped sets are recorded known findings)", "outcome, packets, exports"),
     "C11": ("chained self-delimiting packets decode as one-per-call, same final caches, for every partition into calls", "outcome, packets, caches"),
     "C12": ("allowed_versions acts as a prefix filter on the every-version-allowed result and caches; allowed unknown versions give UnknownVersion", "outcome, packets, caches"),
     "C13": ("common-flow view is the projection of the decoded records (spec projection Preds.specCommon); flat helper = concatenation", "outcome, packets, common"),
-    "C15": ("parsing cost: heap bytes requested during parse_bytes (counting allocator in the harness) bounded by A*|buf| + B*size(result) + C, and size(result) bounded by D*(|buf| + wire size of cached templates) + E, with the size measures defined in Lean (Cost.lean) and the constants fixed in the driver; super-linear families are recorded known findings", "outcome, packets"),
-    "C16": ("JSON: serde_json succeeds, the text is identical when produced twice and by a twin parser fed the same history, and read back it equals the model's serialisation tree toJ (Json.lean) of the decoded value (numbers exact incl. 128-bit, NaN/inf as null, lossy strings, error elements)", "outcome, packets"),
+    "C15": ("parsing cost (theorems: result size linear without zero-length fields and bounded by records x fields in general, the per-packet tail copy is exactly quadratic on packed buffers — Props/C15b.lean; measured:) heap bytes requested AND peak live heap during parse_bytes (counting allocator in the harness) bounded by A*|buf| + B*size(result) + C, and size(result) bounded by D*(|buf| + wire size of cached templates) + E, with the size measures defined in Lean (Cost.lean) and the constants fixed in the driver; super-linear families are recorded known findings", "outcome, packets"),
+    "C16": ("JSON (theorems: text round trip of the printed tree, ordered match, name-keyed read-back readJ (toJ p) = normal form of p for every parse result, member schema regenerated from the derive(Serialize) declarations): serde_json succeeds, the text is identical when produced twice and by a twin parser fed the same history, and read back it equals the model's serialisation tree toJ (Json.lean) of the decoded value (numbers exact incl. 128-bit, NaN/inf as null, lossy strings, error elements)", "outcome, packets"),
     "C17": ("feature parse_unknown_fields off: the crate must build (a failing build is the violation, replay = compiler output); a second harness is linked against that build; with only known field types both builds give identical packets/exports/common view/caches, and no decoded record carries a field of unknown type", "outcome, packets, caches, exports, common"),
-    "C14": ("a packet cut strictly inside yields an error carrying exactly the cut bytes, earlier packets unchanged, caches unchanged for V5/V7/IPFIX", "outcome, packets, caches"),
+    "C14": ("a buffer shorter than its own header announces (V5/V7 count, IPFIX length, V9 flowset length: decidable predicate on the raw bytes, Props/C14b.lean) and a packet cut strictly inside both yield an error carrying exactly those bytes, earlier packets unchanged, caches unchanged for V5/V7/IPFIX", "outcome, packets, caches"),
 }
 
 CLAIMS = {}
